@@ -152,6 +152,15 @@ crate::harness! {
     }
 }
 
+crate::harness! {
+    #[kani::unwind(24)]
+    fn c15_extend_far() {
+        // a task that has not heard of many later tasks (the clock spills out of its inline storage)
+        extend_to::<17>();
+        extend_to::<20>();
+    }
+}
+
 // ---- replay restricted to a target clock never drops a step the target depends on -----------------------------
 
 crate::harness! {
@@ -168,11 +177,12 @@ crate::harness! {
         let dep1 = c1 <= target;
         let t0 = Task::verif_stub(TaskId::from(0), c0, None);
         let t1 = Task::verif_stub(TaskId::from(1), c1, None);
-        // recorded: task 0 steps and draws a random number, then task 1 steps
-        let mut steps = Vec::with_capacity(3);
+        // recorded: task 0 steps and draws a random number, then task 1 steps and draws one
+        let mut steps = Vec::with_capacity(4);
         steps.push(ScheduleStep::Task(TaskId::from(0)));
         steps.push(ScheduleStep::Random);
         steps.push(ScheduleStep::Task(TaskId::from(1)));
+        steps.push(ScheduleStep::Random);
         let mut r = ReplayScheduler::new_from_schedule(Schedule { seed: 9, steps });
         r.set_allow_incomplete();
         r.set_target_clock(target);
@@ -181,6 +191,7 @@ crate::harness! {
         let mut ds = RandomDataSource::initialize(9);
         ds.reinitialize();
         let first_draw = ds.next_u64();
+        let second_draw = ds.next_u64();
         let offered: [&Task; 2] = [&t0, &t1];
         let g1 = r.next_task(&offered, None, false);
         if dep0 {
@@ -191,6 +202,7 @@ crate::harness! {
             let g2 = r.next_task(&offered, g1, false);
             if dep1 {
                 assert!(g2 == Some(TaskId::from(1)), "C15: replay dropped a step the target clock depends on");
+                assert!(r.next_u64() == second_draw, "C15/C01: replayed draw differs from the recorded stream");
             } else {
                 assert!(g2.is_none(), "C15: replay kept a step that is concurrent with the target");
             }
@@ -199,6 +211,8 @@ crate::harness! {
             // task 0's step (and the draw it made) is concurrent with the target: skipped
             if dep1 {
                 assert!(g1 == Some(TaskId::from(1)), "C15: replay dropped a step the target clock depends on");
+                // the skipped step took its draw with it: task 1 gets the value it got in the recording
+                assert!(r.next_u64() == second_draw, "C15/C01: a skipped step did not take its random draws with it");
                 kani::cover!(true, "first step skipped, second kept");
             } else {
                 assert!(g1.is_none(), "C15: replay kept a step that is concurrent with the target");
